@@ -167,6 +167,31 @@ func VerifH_TTLStep() {
 	if touched {
 		ref.touch(i)
 	}
+	// recency order (closes the induction: the next eviction takes the least recently touched key):
+	// the listed keys that the reference still holds appear in the reference's touch order
+	{
+		var listed []string
+		for el := c.eleList.Front(); el != nil; el = el.Next() {
+			listed = append(listed, el.Value.(*ttlNode).key)
+		}
+		last := -1
+		for _, r := range ref.ents {
+			if !r.present {
+				continue
+			}
+			at := -1
+			for i, k := range listed {
+				if k == r.key {
+					at = i
+				}
+			}
+			if at < 0 {
+				continue // evicted: the retrievability rules below decide whether that was allowed
+			}
+			symx.Assert(at > last, "keys are kept in order of their last touch (Set or successful Get), most recent first")
+			last = at
+		}
+	}
 	// probe every key at a later clock reading
 	T2 := symx.Int64("T2")
 	symx.Assume(T2 >= T && T2 < 1<<41)
